@@ -348,9 +348,10 @@ def execute(sc, ctx):
             ctx.violate("second-compare-raised", type(exc).__name__, repr(exc))
     if not cfg["delete"]:
         for rel, data in sorted(prior_bytes.items()):
-            outside = rel not in want and not any(t.startswith(rel + "/") for t in want) and not any(
-                rel.startswith(t + "/") for t in want
-            )
+            # everything that is neither a target path nor in the way of one (a file where the target
+            # has a directory) - files BELOW a path the target wants as a file included: without
+            # deletion their directory cannot be replaced, which is reported, not forced
+            outside = rel not in want and not any(t.startswith(rel + "/") for t in want)
             if outside and rel in sc.get("prior_kinds", {}):
                 # a link into the cache: it must still be there (its object may have been evicted by the scenario)
                 if snap.get(rel, ("",))[0] != "symlink":
